@@ -81,7 +81,7 @@ def check_recv(rep, case, recv, expected, tag):
 
 def frames(ctx, rep):
     rng = ctx.rng("frames")
-    cases = [gen_frame_case(rng, 1000 * i) for i in range(ctx.n(1500, 60000))]
+    cases = [gen_frame_case(rng, 1000 * i) for i in range(ctx.n(1500, 20000))]
 
     def batch(sr, part):
         resp, proc = ctx.vh_lines("frame", part, timeout=900)
